@@ -7,9 +7,9 @@ use super::super::list::lengths_equal as kani_lengths_equal;
 
 //@ tier: quick
 //@ functions: arrow_data::equal::variable_size::offset_value_equal::<i32>, arrow_data::equal::list::lengths_equal::<i32>, equal_len
-//@ bound: two byte arrays of 2 rows each, realised with independent first offsets (0..=3) and row lengths 0..=3 over 10-byte value buffers with arbitrary bytes outside the rows: (lengths_equal && offset_value_equal over both rows) is true iff the rows have equal lengths and equal bytes - independent of where the values sit; unwind 12
+//@ bound: two byte arrays of 2 rows each, realised with independent first offsets (0..=3) and row lengths 0..=3 over 10-byte value buffers with arbitrary bytes outside the rows: (lengths_equal && offset_value_equal over both rows) is true iff the rows have equal lengths and equal bytes - independent of where the values sit; unwind 14
 #[kani::proof]
-#[kani::unwind(12)]
+#[kani::unwind(14)]
 fn c02_variable_size_values_layout_independent() {
     let lv: [u8; 10] = kani::any();
     let rv: [u8; 10] = kani::any();
